@@ -34,7 +34,7 @@ def calibrate():
 def strategy(tier):
     aux = st.fixed_dictionaries({"seed": st.integers(0, 20), "blocks": st.booleans(), "special": st.booleans(),
                                  "symbols": st.booleans()})
-    return st.tuples(Lm.case_st(tier), aux).map(lambda t: {**t[0], "aux": t[1]})
+    return st.tuples(Lm.case_st(tier, pdata=True), aux).map(lambda t: {**t[0], "aux": t[1]})
 
 
 def budget(tier):
